@@ -133,16 +133,7 @@ example :
     maskedOutputs (freeAlg Nat) cfg 0 (World.init ⟨0, []⟩) h₁
       = maskedOutputs (freeAlg Nat) cfg 2 (World.init ⟨0, [77]⟩) h₂ := by decide
 
-/-- `World.init` is well-formed. -/
-theorem init_wf (g0 : G) : WF (World.init g0) := by
-  intro m r h; simp [World.init] at h
-
 /-! ## successive calls advance the stream -/
-
-/-- what `n` successive calls return when the stream starts at `g`: consecutive segments. -/
-def segments (A : GenAlg G Draw Out) : G → List (Call Draw) → List (Option (Result Out))
-  | _, [] => []
-  | g, c :: cs => some (result A g c) :: segments A (advDraws A g c.draws) cs
 
 /-- If the own call sequence of a seeded model in a history (whatever else the history contains)
 is `sample c₁, …, sample cₙ`, call `k` is served from the state reached after the draws of calls
@@ -185,24 +176,6 @@ theorem stream_advances_distinct (A : GenAlg G Draw Out) (hA : Acyclic A) (cfg :
   simp only [World.view, upd_same, hr, Option.map_some]
   intro h
   exact hA _ _ hc (Option.some.inj h)
-
-/-- a counter is an acyclic generator algebra (non-vacuity of `Acyclic`). -/
-def ctr : GenAlg Nat Nat Nat := ⟨fun g d => g + d + 1, fun g d => 1000 * g + d, fun n => 1000000 * n⟩
-
-theorem ctr_acyclic : Acyclic ctr := by
-  have key : ∀ (ds : List Nat) (g : Nat), g + ds.length ≤ advDraws ctr g ds := by
-    intro ds
-    induction ds with
-    | nil => intro g; simp
-    | cons d ds ih =>
-      intro g
-      have := ih (g + d + 1)
-      simp only [advDraws_cons, List.length_cons, ctr] at this ⊢
-      omega
-  intro g ds hds
-  have h1 := key ds g
-  have h2 : 0 < ds.length := List.length_pos_iff.mpr hds
-  omega
 
 /-! ## without a seed -/
 
@@ -251,13 +224,6 @@ theorem decorated_of_table (clsOf : Nat → String) (m : Nat) (hm : clsOf m ∈ 
   simpa [configOf] using this
 
 /-! ## the selecting wrapper `Univariate` -/
-
-/-- The model of the code as found: `Univariate.sample` is not decorated and delegates to an
-instance built without the seed. -/
-def wrapperAsFound : Config := configOf asFoundTable fun _ => "Univariate"
-
-/-- … and after the repair (decorating `Univariate.sample`). -/
-def wrapperRepaired : Config := configOf repairedTable fun _ => "Univariate"
 
 /-- **The full-strength determinism theorem is false for the wrapper as found.**  Two equal
 wrappers constructed with the same seed (`7`) and asked for the same sample return different
